@@ -223,4 +223,24 @@ example : inferEncoding (S "text/html") (B "<meta charset=\"latin-1\">") = S "la
     inferEncoding (S "text/css") (B "@charset \"x\" ;") = S "utf8" ∧
     inferEncoding (S "text/css; charset=ascii") [0xff, 0xfe, 0x00, 0x00] = S "utf-32le" := by decide +kernel
 
+/-! ### audit round 6: non-vacuity witness for `text_roundtrip_nonstrict_partial` on its lenient branch -/
+
+/-- a codec library in which no codec knows the declared charset and strict UTF-8 rejects the bytes (texts = raw bytes):
+    the hypotheses of `text_roundtrip_nonstrict_partial` hold for the surrogate-escaped text `E9 61`, the lenient getter
+    returns it and the strict getter raises -/
+private def rawLib : Lib Bytes where
+  enc _ _ := none
+  dec _ _ := none
+  u8se t := t
+  u8seDec b := b
+
+example : getText rawLib (setText rawLib (plainMsg "text/plain; charset=nope") [0xe9, 0x61]) false = some [0xe9, 0x61] ∧
+    (getText rawLib (setText rawLib (plainMsg "text/plain; charset=nope") [0xe9, 0x61]) true = some [0xe9, 0x61] ∨
+     getText rawLib (setText rawLib (plainMsg "text/plain; charset=nope") [0xe9, 0x61]) true = none) :=
+  text_roundtrip_nonstrict_partial rawLib _ _ (by intro b hb; cases hb) rfl (by intro x hx; cases hx) (by decide +kernel)
+
+/-- and the strict getter really is `none` there (the disjunction above is not always its left half) -/
+example : getText rawLib (setText rawLib (plainMsg "text/plain; charset=nope") [0xe9, 0x61]) true = none := by
+  decide +kernel
+
 end MitmVerif.Props.C32
